@@ -172,10 +172,21 @@ def phase3(wd, manifest_path, state, cleanup, out_path):
         if r.exception is not None and not isinstance(r.exception, SystemExit):
             report["errors"].append(f"{args[:-1]} raised {r.exception!r}")
 
+    def unreachable():
+        bad = []
+        for m in man:
+            new = ws / "jobs" / m["new_rel"]
+            if not (new.exists() and (new / "payload.txt").is_file() and (new / "payload.txt").read_text() == m["nonce"]):
+                bad.append(m["old_rel"])
+        return bad
+
+    report["unreachable_after"] = []
     with xpctx.stderr_to_devnull():
         if state in ("already-linked", "cleanup-after-link"):
             repair(False)
+            report["unreachable_after"].append(["repair 1 (link)", unreachable()])
         repair(bool(int(cleanup)) or state == "cleanup-after-link")
+        report["unreachable_after"].append(["repair" + (" (cleanup)" if bool(int(cleanup)) or state == "cleanup-after-link" else " (link)"), unreachable()])
         snap1 = snapshot(ws)
         repair(bool(int(cleanup)) or state == "cleanup-after-link")
         snap2 = snapshot(ws)
